@@ -201,6 +201,14 @@ func (g *Geometry) UnmarshalJSON(data []byte) error {
 		return ErrInvalidGeometry
 	}
 
+	// the value may have held another geometry before (a reused destination):
+	// keep only what was just decoded.
+	if jg.Type == "GeometryCollection" {
+		g.Coordinates = nil
+	} else {
+		g.Geometries = nil
+	}
+
 	g.Type = g.Geometry().GeoJSONType()
 
 	return nil
@@ -262,6 +270,14 @@ func (g *Geometry) UnmarshalBSON(data []byte) error {
 		g.Geometries = bg.Geometries
 	default:
 		return ErrInvalidGeometry
+	}
+
+	// the value may have held another geometry before (a reused destination):
+	// keep only what was just decoded.
+	if bg.Type == "GeometryCollection" {
+		g.Coordinates = nil
+	} else {
+		g.Geometries = nil
 	}
 
 	g.Type = g.Geometry().GeoJSONType()
